@@ -1,4 +1,119 @@
-(** C01 placeholder (development) *)
-From Coq Require Import List.
-From DV Require Import Conv.Meta.
-Theorem C01_dev : True. Proof. exact I. Qed.
+(** C01 The embedded summary is a lossless encoding of every source file's metadata.
+    Model: Conv/Meta.v ([conv_meta] = the embed block of DicomStack.to_nifti on top of Stack.Model.to_nifti:
+    [file_ext] per file, the three-level nest of from_sequence, the rewrite of shape / slice_dim / affine,
+    filter_meta); Ext/Model.v (from_sequence, get_meta); spec: Ext/Spec.v ([den], [valid]), Ext/LookupSpec.v
+    ([in_bounds], [pos_of]), Conv/ProofsMetaStack.v ([covers], [metas_ok], [normals_ok]),
+    Conv/ProofsMetaEmbed.v ([is_perm3], [img_matches]).
+
+    Reading guide.  [ms] lists, per file id, the extracted dictionary [m_meta] and the affine [m_aff] of the
+    per-file extension; [st] is any well-formed stack ([wf]: every stack reachable from an empty one by add_dcm
+    and queries) whose files are covered by [ms]; [perm] is the axis permutation of the voxel reordering
+    (perm[i] = output axis of input axis i), [oaff] the affine written into the extension, [filt] the key filter
+    (true = remove).  [to_nifti st vo true = (st', Ok o)]: the stack is accepted (by C11 exactly when get_shape
+    succeeds); [o_order o] is the FINAL file order, i.e. after the in-place reversal of every volume when the
+    slice axis is flipped: list order follows data order, so the file at list index s + S*(t + T*v) is the one
+    whose pixels are at slice index s (along output axis perm[2]), time t, vector component v of the reoriented
+    array (C01_flip_order relates it to the sorted order; the pixel side is C02's). *)
+From Coq Require Import List Bool Arith NArith ZArith QArith.
+From DV Require Import Common.Res Common.Str Common.Jv Ext.Types Ext.Seq Ext.Model Ext.Spec Ext.LookupSpec
+     Conv.Meta Conv.ProofsMetaBase Conv.ProofsMetaEmbed Conv.ProofsMetaStack Conv.ProofsMetaTop Conv.ProofsMetaEx.
+From DV Require Stack.Model Stack.Spec Stack.ProofsInv Stack.ProofsShape.
+Import ListNotations.
+Local Open Scope nat_scope.
+
+(** Every source file, every key the filter keeps, every grid size S,T,V >= 1 (3-D, 4-D, 5-D incl. (x,y,z,1,n),
+    single-slice volumes), every axis permutation: the extension denotes at the file's grid position exactly what
+    the file carried ([vnone] where it lacked the key), and [get_meta] at any voxel index of that file's slice
+    returns it.  Hypothesis [normals_ok]: the slice normals of the per-file extension affines are pairwise
+    np.allclose -- a domain restriction forced by the open finding N9 (see C01_lossless_refuted). *)
+Theorem C01_lossless :
+  forall (V : Type) (veqb : V -> V -> bool) (vnone : V), (forall a b, reflect (a = b) (veqb a b)) ->
+  forall (ms : list (mfile V)) (st : Stack.Model.state) (vo : Stack.Model.vorder) (perm : list nat)
+         (oaff : list (list Q)) (filt : key -> bool),
+    Stack.ProofsInv.wf st -> covers ms st -> metas_ok ms -> normals_ok ms -> is_perm3 perm -> aff_ok oaff ->
+    forall st' o, Stack.Model.to_nifti st vo true = (st', Ok o) ->
+    exists S T Vn r c e,
+      1 <= S /\ 1 <= T /\ 1 <= Vn /\
+      Stack.Model.o_shape o = Stack.Spec.grid_shape r c S T Vn /\ length (Stack.Model.o_order o) = S * T * Vn /\
+      conv_meta veqb vnone ms st vo perm oaff filt = (st', Ok e) /\
+      valid e /\
+      shape (hdr_of e) = permute_shape perm (Stack.Model.o_shape o) /\ sdim (hdr_of e) = Some (nth 2 perm 2) /\
+      aff (hdr_of e) = oaff /\
+      forall s t v m k, s < S -> t < T -> v < Vn ->
+        find_mfile ms (nth (s + S * (t + T * v)) (Stack.Model.o_order o) 0) = Ok m -> filt k = false ->
+        den vnone e k (s, t, v) = meta_lookup vnone m k /\
+        forall im ix, img_matches im e -> in_bounds ix (ishape im) -> pos_of im ix = (s, t, v) ->
+          get_meta im e k (Some ix) vnone = Ok (meta_lookup vnone m k).
+Proof. exact @lossless_top. Qed.
+
+(** Filtered keys are absent: no entry, the denotation is None everywhere, every lookup gives the default. *)
+Theorem C01_filtered :
+  forall (V : Type) (veqb : V -> V -> bool) (vnone : V), (forall a b, reflect (a = b) (veqb a b)) ->
+  forall (ms : list (mfile V)) (st : Stack.Model.state) (vo : Stack.Model.vorder) (perm : list nat)
+         (oaff : list (list Q)) (filt : key -> bool),
+    Stack.ProofsInv.wf st -> covers ms st -> metas_ok ms -> normals_ok ms -> is_perm3 perm -> aff_ok oaff ->
+    forall st' o, Stack.Model.to_nifti st vo true = (st', Ok o) ->
+    exists e, conv_meta veqb vnone ms st vo perm oaff filt = (st', Ok e) /\
+      forall k, filt k = true ->
+        lookup_e e k = None /\ (forall p, den vnone e k p = vnone) /\ forall im ix d, get_meta im e k ix d = Ok d.
+Proof. exact @filtered_top. Qed.
+
+(** The final order against the order in which get_data fills the array: equal when the slice axis is not
+    flipped, reversed inside every volume (index s <-> S-1-s) when it is. *)
+Theorem C01_flip_order :
+  forall (st : Stack.Model.state) (vo : Stack.Model.vorder) (em : bool) st' o,
+    Stack.ProofsInv.wf st -> Stack.Model.to_nifti st vo em = (st', Ok o) ->
+    exists ord0 S T V r c,
+      1 <= S /\ 1 <= T /\ 1 <= V /\ Stack.Model.o_shape o = Stack.Spec.grid_shape r c S T V /\
+      snd (Stack.Model.get_data st) = Ok (ord0, Stack.Model.o_shape o) /\ length ord0 = S * T * V /\
+      (Stack.Model.o_flip o = false -> Stack.Model.o_order o = ord0) /\
+      (Stack.Model.o_flip o = true ->
+         forall s j, s < S -> j < T * V ->
+           nth (s + S * j) (Stack.Model.o_order o) 0 = nth ((S - 1 - s) + S * j) ord0 0).
+Proof. intros st vo em st' o. exact (flip_order st vo em st' o). Qed.
+
+(** The statement without [normals_ok] is FALSE of the faithful model (finding N9, confirmed on the real code):
+    four files accepted by the stack (orientation of one differs by 2^-17 in one component, inside add_dcm's own
+    5e-5 tolerance), all other hypotheses hold, the conversion succeeds, and the value file 2 carried for the key
+    "s" is lost: the extension says None at that file's position. *)
+Theorem C01_lossless_refuted :
+  exists (ms : list (mfile jv)) (st : Stack.Model.state) (oaff : list (list Q)),
+    Stack.ProofsInv.wf st /\ covers ms st /\ metas_ok ms /\ is_perm3 [0; 1; 2] /\ aff_ok oaff /\ ~ normals_ok ms /\
+    map Stack.Model.f_id (Stack.ProofsShape.files st) = [0; 1; 2; 3] /\
+    (exists st' o, Stack.Model.to_nifti st None true = (st', Ok o) /\
+                   Stack.Model.o_shape o = [2; 3; 2; 2] /\ Stack.Model.o_order o = [0; 1; 2; 3]) /\
+    exists e m, snd (conv_meta jv_eqb JNull ms st None [0; 1; 2] oaff (fun _ => false)) = Ok e /\
+      find_mfile ms 2 = Ok m /\
+      meta_lookup JNull m k_slice = JInt 120 /\ den JNull e k_slice (0, 1, 0) = JNull.
+Proof. exists n9_ms, n9_st, n9_oaff. exact n9_witness. Qed.
+
+(** * Non-vacuity *)
+
+(** C01_lossless: 2 slices x 2 times x 2 vector components added in scrambled order, every volume reversed
+    (o_flip), slice axis moved to output axis 0; a per-slice, a per-volume, a per-vector and a constant key end up
+    in four different classifications and every one of the 8 x 4 values is the source file's. *)
+Example C01_lossless_ex :
+  (Stack.ProofsInv.wf ex_st /\ covers ex_ms ex_st /\ metas_ok ex_ms /\ normals_ok ex_ms /\ is_perm3 ex_perm /\ aff_ok ex_oaff) /\
+  (exists st' o, Stack.Model.to_nifti ex_st ex_vo true = (st', Ok o) /\
+     Stack.Model.o_shape o = [2; 3; 2; 2; 2] /\ Stack.Model.o_flip o = true /\
+     Stack.Model.o_order o = [3; 4; 0; 6; 7; 1; 5; 2]) /\
+  exists e, ex_result = Ok e /\
+    shape (hdr_of e) = [2; 2; 3; 2; 2] /\ sdim (hdr_of e) = Some 0 /\
+    ex_table e = ex_truth /\
+    map (fun k => option_map fst (lookup_e e k)) ex_keys = [Some TSlices; Some TSamples; Some VSamples; Some GConst] /\
+    den JNull e k_slice (0, 0, 0) = JInt 101 /\ den JNull e k_slice (1, 0, 0) = JInt 100.
+Proof. split; [exact ex_hyps|]. split; [exact ex_nifti | exact ex_lossless]. Qed.
+
+(** C01_filtered: with the default filter "PatientName" is gone, "ImagePositionPatient" (per file) is kept *)
+Example C01_filtered_ex :
+  (covers ex_ms2 ex_st /\ metas_ok ex_ms2 /\ normals_ok ex_ms2) /\
+  exists e, ex_result2 = Ok e /\
+    lookup_e e k_pn = None /\ option_map fst (lookup_e e k_ipp) = Some GSlices /\
+    map (fun k => option_map fst (lookup_e e k)) ex_keys = [Some TSlices; Some TSamples; Some VSamples; Some GConst] /\
+    length (keys_e e) = 5.
+Proof. split; [exact ex_hyps2 | exact ex_filtered]. Qed.
+
+(** C01_flip_order: in the example the order before the reversal is 4 3 6 0 1 7 2 5 *)
+Example C01_flip_order_ex :
+  rmap fst (snd (Stack.Model.get_data ex_st)) = Ok [4; 3; 6; 0; 1; 7; 2; 5].
+Proof. vm_compute. reflexivity. Qed.
